@@ -106,4 +106,37 @@ PROPS = {
         level_note='Trusted: as C01; net.IPNet.Contains.',
         engine="step-harness",
     ),
+    "C11": dict(
+        lean_modules=['Swim.Model.Codec', 'Swim.Props.C11'],
+        tests="^TestC11$",
+        rule='three families: (cmp) makeCompoundMessages/decode on generated message lists of 0-600 parts incl. 254-257 and 64 KiB boundary sizes, compared byte-exactly (length+digest) with the model; (dec) decodeCompoundMessage on truncated/mutated/random input compared byte-exactly; (pkt) a real sender packs its membership queue and user-delegate queue (0-80 membership, 0-700 tiny user messages) through gossip() or sendMsg() under random UDPBufferSize/label/encryption version/compression/peer protocol version, the packets are measured and fed to a real receiver; non-trivial = more than one part; distinct = distinct canonical lines',
+        trusted_base=COMMON_TB + ["compression (compress/lzw), AES-GCM, CRC-32 and go-msgpack are opaque primitives: laws as theorem hypotheses, behaviour exercised end to end by the harness",
+                                  "regenerated constants in lean/Swim/Gen/Facts.lean (tools/extract runs the verif-tagged accessor)"],
+        assumptions=["messages packed into packets are shorter than 64 KiB (UDPBufferSize <= 65535)"],
+        level_text='Proof: compound round-trip for <=255 parts and for any count through makeCompoundMessages, and packet_fits for gossip() and sendMsg() budgets over every label/encryption/checksum setting (Lean, constants regenerated from the code); tied by byte-exact compound correspondence and end-to-end packing runs on the real code (measured wire length <= UDPBufferSize, receiver gets exactly the picked messages).',
+        level_note='Trusted: Lean kernel; budget arithmetic of gossip()/sendMsg()/getBroadcasts() modelled by hand and compared with the real selection on every run; compression only ever shrinks the payload (checked: the code keeps the original otherwise); user delegate honours the limit it is given.',
+        engine="codec-harness",
+    ),
+    "C12": dict(
+        lean_modules=['Swim.Model.Codec', 'Swim.Props.C11', 'Swim.Props.C16', 'Swim.Props.C12'],
+        tests="^TestC12$",
+        rule='round trips on real sender/receiver pairs: best-effort user message (packet path), reliable user message (stream path, random fragmentation, up to 73 KB), and a full join (both directions of push/pull over an in-memory duplex stream with user state) under random label 0-255 / encryption none,v0,v1 / key size / compression / checksum; payload sizes around the 16-byte block boundaries, first payload byte drawn from the marker values; non-trivial = payload of at least 16 bytes',
+        trusted_base=COMMON_TB + ["compression (compress/lzw), AES-GCM, CRC-32 and go-msgpack are opaque primitives: laws as theorem hypotheses, behaviour exercised end to end by the harness",
+                                  "regenerated constants in lean/Swim/Gen/Facts.lean (tools/extract runs the verif-tagged accessor)"],
+        assumptions=["messages packed into packets are shorter than 64 KiB (UDPBufferSize <= 65535)"],
+        level_text='Proof: PKCS7, label and compound layers byte-exact; packet_roundtrip over abstract compression/AEAD/checksum primitives with their laws as hypotheses, for every emitted message type (fact theorem), label, key, nonce, compression decision, checksum setting and encryption version; tied by end-to-end round trips through the real send and receive functions.',
+        level_note='Trusted: Lean kernel; lzw, AES-GCM, CRC-32, go-msgpack (laws assumed, exercised); stream path proved only through its shared layers (label, AEAD, compression) - the msgpack stream framing is exercised, not modelled.',
+        engine="codec-harness",
+    ),
+    "C16": dict(
+        lean_modules=['Swim.Model.Codec', 'Swim.Props.C16'],
+        tests="^TestC16$",
+        rule='(lbl) AddLabelHeaderToPacket then RemoveLabelHeaderFromPacket for label lengths 0,1,2,7,254,255,256,300 x payloads incl. empty and marker-first, byte-exact against the model; (rm) RemoveLabelHeaderFromPacket and ...FromStream (random fragmentation) on hostile bytes, compared with the model and with each other; (gate) sender label x receiver label (empty, equal, prefix/extension, 255-byte differing in the last byte) x SkipInboundLabelCheck x encryption x path (packet user message, ping, reliable stream) on real nodes: acted/replied must match the gate; non-trivial = a label is involved',
+        trusted_base=COMMON_TB + ["compression (compress/lzw), AES-GCM, CRC-32 and go-msgpack are opaque primitives: laws as theorem hypotheses, behaviour exercised end to end by the harness",
+                                  "regenerated constants in lean/Swim/Gen/Facts.lean (tools/extract runs the verif-tagged accessor)"],
+        assumptions=["messages packed into packets are shorter than 64 KiB (UDPBufferSize <= 65535)"],
+        level_text='Proof: label add/remove round-trip for every label of 1-255 bytes and every payload, accept-iff-equal gate, double-header rejection, receiver always continues with its own label as AAD (Lean); fact theorems on the message numbering; tied byte-exactly on packets and fragmented streams and by gate runs on real nodes.',
+        level_note='Trusted: Lean kernel; bufio.Reader.Peek returns the same prefix whatever the fragmentation (exercised by the fragmentation campaign).',
+        engine="codec-harness",
+    ),
 }
